@@ -11,3 +11,52 @@ def obligations_for(prop, repo, cdb):
             return not bad, {"backend": "z3-5.1 bit-vector", "facts": [n for n, _, _ in res], "failed": bad}
         out.append(("ground:bx-axioms-hold-in-BV8", bx))
     return out
+
+
+def _partials(repo):
+    import ast, re
+    m = repo.module("dissect.cobaltstrike.utils")
+    out = {}
+    for name, node in m.assigns.items():
+        if isinstance(node, ast.Call) and ast.unparse(node.func) in ("partial", "functools.partial"):
+            out[name] = (ast.unparse(node.args[0]), {k.arg: ast.literal_eval(k.value) for k in node.keywords})
+    return out
+
+
+def _partial_obligation(repo, name):
+    import re
+
+    def run():
+        parts = _partials(repo)
+        mm = re.match(r"^(u|p)(8|16|32|64)(be)?$", name)
+        if name not in parts:
+            return False, {"missing": name}
+        base, kw = parts[name]
+        if mm:
+            want_base = "unpack" if mm.group(1) == "u" else "pack"
+            want = {"size": int(mm.group(2)) // 8}
+            if mm.group(3):
+                want["byteorder"] = "big"
+        else:
+            want_base = name.split("_")[0]
+            want = {"byteorder": "big"}
+        ok = base == want_base and kw == want
+        return ok, {"binding": [base, kw], "expected": [want_base, want], "backend": "ground (AST of utils.py)"}
+    return run
+
+
+_old_obligations_for = obligations_for
+
+
+def obligations_for(prop, repo, cdb):
+    out = _old_obligations_for(prop, repo, cdb)
+    if prop == "C20":
+        for name in ["unpack_be", "pack_be", "u8", "p8", "u16", "p16", "u16be", "p16be", "u32", "p32", "u32be", "p32be",
+                     "u64", "p64", "u64be", "p64be"]:
+            out.append((f"ground:partial-binding:{name}", _partial_obligation(repo, name)))
+        def derived():
+            res = smt.IS.prove_derived() + smt.VS.prove_derived()
+            bad = [n for n, r, _ in res if r != "unsat"]
+            return not bad, {"backend": "z3-5.1", "facts": [n for n, _, _ in res], "failed": bad}
+        out.append(("ground:prelude-derived-axioms-follow-from-base", derived))
+    return out
